@@ -884,7 +884,10 @@ fn main() {
                 for line in &case.ops {
                     match &line[0..1] {
                         "C" => {
-                            let r = run_circ(line);
+                            // a panic is an answer of its own here (the driver decides
+                            // whether the circuit is inside the documented domain)
+                            let r = std::panic::catch_unwind(|| run_circ(line))
+                                .unwrap_or_else(|e| format!("PANIC {}", panic_msg(e)));
                             out(format!("{line} -> {r}"));
                         }
                         "P" => {
